@@ -38,7 +38,17 @@ func (d *Pegnetd) GetPegNetRateAverages(ctx context.Context, height uint32) (Avg
 		heightsOverPeriod = map[fat2.PTicker][]uint32{}
 	}
 
+	complete := false
 	defer func() { //                                           Always set up the cache when exiting the routine
+		if !complete {
+			// A panic is passing through (a rate query failed): what was collected so far is not the
+			// window of this height. An API handler's panic is recovered by the rpc layer and the
+			// daemon lives on, so nothing of it may stay behind for the sync loop: drop the cache,
+			// the next call reloads the whole period.
+			d.lastAveragesDataHeights, d.LastAveragesData, d.LastAverages = nil, nil, nil
+			d.LastAveragesHeight = 0
+			return
+		}
 		d.lastAveragesDataHeights = heightsOverPeriod
 
 		d.LastAveragesData = ratesOverPeriod //                   Save the data we used to create averages
@@ -121,6 +131,7 @@ func (d *Pegnetd) GetPegNetRateAverages(ctx context.Context, height uint32) (Avg
 		averages[k] = averages[k] / uint64(len(v)) // Divide the sum of the rates by the number of rates
 	}
 
+	complete = true
 	return averages // Return the rates we found.
 }
 
